@@ -323,12 +323,26 @@ def run(repo, tier, seed):
                 if name == "filesystem" and si % 4 != 0:
                     continue
                 model = {}
+                if name.startswith("mock"):
+                    list(p.events())           # drain
                 for k, op in enumerate(seq):
                     evaluations += 1
                     try:
+                        before_ids = {v[1] for v in _tree(p).values()} if name.startswith("mock") else None
                         msg = _apply(p, model, op, E)
                         if msg is None:
                             msg = _check_consistency(name, p, model, op)
+                        if msg is None and before_ids is not None:
+                            after_ids = {v[1] for v in _tree(p).values()}
+                            evs = list(p.events())
+                            for gone in before_ids - after_ids:
+                                if not any((e.oid == gone and e.exists is False) or getattr(e, "prior_oid", None) == gone for e in evs):
+                                    msg = "object id %r stopped existing but the event stream never reported it (events: %s)" % (
+                                        gone, [(e.oid, e.exists) for e in evs])
+                            for new in after_ids - before_ids:
+                                if not any(e.oid == new and e.exists is not False for e in evs):
+                                    msg = "object id %r started to exist but the event stream never reported it (events: %s)" % (
+                                        new, [(e.oid, e.exists) for e in evs])
                     except Exception as e:
                         msg = "harness observed %s: %s" % (type(e).__name__, str(e)[:100])
                     if msg is not None:
